@@ -69,6 +69,17 @@ def templates(rng, cfg_proto=None):
             out.append({"cfg": cfg, "abs": [], "events": [k(c, 1) for c, n, o in keys[:4]], "tag": "template-extremes-held"})
             out.append({"cfg": cfg, "abs": [], "events": tap(60) + [k(34, 1)], "tag": "template-extremes-held"})               # 115 + 12 = 127
             out.append({"cfg": cfg, "abs": [], "events": tap(61) + [k(35, 1)] + tap(60) + [k(30, 1)], "tag": "template-extremes-held"})   # 12 - 12 = 0
+    # keys of NAMED sub-handlers (a pad's "Touchpad", a second keyboard interface) held at disconnect - alone, together with the same code on
+    # the unnamed handler, after a tap
+    for cmode in devgen.CMODES:
+        m0 = [{"sub": "", "code": 30, "note": 60, "off": 0}, {"sub": "Touchpad", "code": 30, "note": 67, "off": 1},
+              {"sub": "Touchpad", "code": 31, "note": 72, "off": 0}, {"sub": "aux", "code": 32, "note": 60, "off": 0}]
+        cfg = {"mappings": [{"name": "M0", "midi": m0, "analog": [], "dz": [], "defdz": [], "subs": []}], "actions": [{"code": 60, "action": "octave_up"}],
+               "exitseq": [], "cmode": cmode, "octave": 0, "semitone": 0, "channel": 1, "mapping": 0, "velocity": 64}
+        T = "Touchpad"
+        for ev in ([k(31, 1, T)], [k(30, 1, T)], [k(30, 1, ""), k(31, 1, T)], [k(31, 1, T), k(31, 0, T), k(31, 1, T)], [k(32, 1, "aux"), k(30, 1, "")],
+                   [k(31, 1, T)] + tap(60), [k(30, 1, T), k(32, 1, "aux"), k(31, 1, T)]):
+            out.append({"cfg": cfg, "abs": [], "events": ev, "tag": "template-named-handler-held"})
     return out
 
 
